@@ -81,7 +81,9 @@ Obs(ds, s) ==
     decls    |-> [i \in 1..Len(D(ds, s)) |->
                     [n |-> D(ds, s)[i].n, t |-> D(ds, s)[i].t, master |-> D(ds, s)[MasterIx(ds, s, i)].id,
                      declset |-> [k \in 1..Len(DeclSetIx(ds, s, i)) |-> D(ds, s)[DeclSetIx(ds, s, i)[k]].id],
-                     pos |-> i - 1]],
+                     pos |-> i - 1,
+                     \* what else the declaration was given: an alias reports the aliasee it was declared with (one per type)
+                     init |-> IF D(ds, s)[i].kind = "alias" THEN D(ds, s)[i].t ELSE 0]],
     lookup   |-> [n \in AllNames |-> IF Declared(ds, s, n) THEN 1 ELSE 0],
     select   |-> [n \in AllNames |-> [t \in AllTypes |-> Select(ds, s, n, t)]]]
 
